@@ -398,37 +398,46 @@ func c13List(p *model.Prog, r *report.Result) {
 	nextF := p.Field("pkg/rtprtcp", "RtpPacketListItem", "Next")
 	sizeF := p.Field("pkg/rtprtcp", "RtpPacketList", "Size")
 	links, unlinks := 0, 0
-	for _, st := range model.FieldStores(fn, nextF) {
-		// storing a freshly allocated item links; storing a loaded .Next unlinks/relinks
-		if _, isAlloc := st.Val.(*ssa.Alloc); isAlloc {
-			// the item's own Next initialisation is a store through the fresh object: skip those
-			if fa, ok := st.Addr.(*ssa.FieldAddr); ok {
-				if _, own := fa.X.(*ssa.Alloc); own {
-					continue
-				}
-			}
+	// Insert and the same-package helpers it calls (the link step may be factored out; the new
+	// item then arrives as a parameter): a value is fresh when it is, in Insert's terms, the
+	// item allocated there
+	model.EachInstrDeep(fn, 2, func(d model.DeepInstr) {
+		st, ok := d.In.(*ssa.Store)
+		if !ok || model.FieldOf(st.Addr) != nextF {
+			return
+		}
+		fresh := func(v ssa.Value) bool {
+			_, isAlloc := d.Resolve(v).(*ssa.Alloc)
+			return isAlloc
+		}
+		fa, _ := st.Addr.(*ssa.FieldAddr)
+		if fa != nil && fresh(fa.X) {
+			return // initialising the new item's own Next
+		}
+		if fresh(st.Val) {
 			links++
-			inc := false
-			for _, in := range st.Block().Instrs {
+			isInc := func(in ssa.Instruction) bool {
 				if s2, ok := in.(*ssa.Store); ok && model.FieldOf(s2.Addr) == sizeF {
 					if add, ok := s2.Val.(*ssa.BinOp); ok && add.Op == token.ADD && model.IsLoadOfField(add.X, sizeF) {
 						if k, isK := model.ConstInt(add.Y); isK && k == 1 {
-							inc = true
+							return true
 						}
 					}
 				}
+				return false
 			}
+			// every way from the link to the end of its function increases Size
+			miss := model.PathQuery{From: st, Stop: isInc, Target: func(in ssa.Instruction) bool {
+				_, isRet := in.(*ssa.Return)
+				return isRet
+			}}.Find(d.Fn)
+			inc := miss == nil
 			r.Check(inc, "C13.LIST", fkey(fn, "link", "size++"), p.InstrPos(st), "Size increased with the new item", "an item is linked without increasing Size")
-			continue
-		}
-		if fa, ok := st.Addr.(*ssa.FieldAddr); ok {
-			if _, own := fa.X.(*ssa.Alloc); own {
-				continue // initialising the new item's Next
-			}
+			return
 		}
 		unlinks++
 		r.Bad("C13.LIST", fkey(fn, "unlink", "in-insert"), p.InstrPos(st), "Insert re-links existing items (drops one from the list) without decreasing Size: Size grows beyond the number of items, and the GB28181 drop loop (for Size > 0 { PeekFirst() }) dereferences a nil head")
-	}
+	})
 	if links < 1 {
 		r.Bad("C13.LIST", fkey(fn, "link", "floor"), p.Pos(fn.Pos()), "the link sites of RtpPacketList.Insert were not found")
 	}
@@ -697,12 +706,21 @@ func c16r78(p *model.Prog, r *report.Result) {
 	delIn := p.Method("pkg/logic", "Group", "delIn")
 	disp := p.MethodObj("pkg/remux", "Rtmp2MpegtsRemuxer", "Dispose")
 	stopTs := p.MethodObj("pkg/logic", "Group", "stopRecordMpegtsIfNeeded")
-	ds, ss := model.CallsTo(delIn, disp), model.CallsTo(delIn, stopTs)
-	ok := len(ds) == 1 && len(ss) == 1 && (model.PathQuery{From: ss[0], Target: func(in ssa.Instruction) bool { return in == ssa.Instruction(ds[0]) }}).Find(delIn) == nil
-	pos := p.Pos(delIn.Pos())
-	if len(ss) == 1 {
-		pos = p.InstrPos(ss[0])
+	isCall := func(o *types.Func) func(model.DeepInstr) bool {
+		return func(d model.DeepInstr) bool {
+			ci, ok := d.In.(ssa.CallInstruction)
+			return ok && model.SameFunc(model.CalleeObj(ci.Common()), o)
+		}
 	}
+	// on delIn with its same-package helpers inlined
+	nD, nS := model.CountDeep(delIn, 2, isCall(disp)), model.CountDeep(delIn, 2, isCall(stopTs))
+	ok := nD == 1 && nS == 1 && model.DeepPathQuery{Root: delIn, Depth: 2, From: isCall(stopTs), Target: isCall(disp)}.Find() == nil
+	pos := p.Pos(delIn.Pos())
+	model.EachInstrDeep(delIn, 2, func(d model.DeepInstr) {
+		if isCall(stopTs)(d) {
+			pos = p.InstrPos(d.In)
+		}
+	})
 	r.Check(ok, "C16.R7", fkey(delIn, "order", "flush-before-close-recording"), pos, "remuxer disposed (flushed) before the TS recording is closed", "the TS recording is closed before the remuxer's final flush: up to 150 ms of pending audio never reach the file")
 
 	r.Rule("C16.R8", "in Group.StartRtpPub every path from addIn() to a return goes through delPsPubSession/delIn unless the session was successfully started: a failed Listen() releases everything addIn set up (hook, recordings, muxers)")
